@@ -554,6 +554,11 @@ func checkCmd(p *propCfg, tier, repo string, writeEvidence bool) int {
 	}
 	nW := workersEnv()
 	dir := filepath.Join(scratch, p.ID, "out")
+	var wrapCh chan map[string]any
+	if p.ID == "C01" && tier == "thorough" {
+		wrapCh = make(chan map[string]any, 1)
+		go func() { wrapCh <- realWrap(p, dir) }()
+	}
 	outs, err := explore(p, worker, dir, seed, nW, budget*1000, 0, tier, false)
 	if err != nil {
 		fmt.Fprintf(os.Stderr, "verifctl: %v\n", err)
@@ -637,12 +642,66 @@ func checkCmd(p *propCfg, tier, repo string, writeEvidence bool) int {
 		}
 		reported = append(reported, rec)
 	}
+	if wrapCh != nil {
+		wr := <-wrapCh
+		agg.extra = map[string]any{"counter_wrap_real_2^32": wr}
+		if f, _ := wr["failure"].(string); f != "" {
+			path := filepath.Join(rdir, "C01-wrap_sequential.json")
+			writeJSON(path, wr)
+			fmt.Printf("VIOLATION property=%s replay=%s\n  class=wrap_sequential site=ringz.(*SyncRing) detail=%s\n", p.ID, path, f)
+			reported = append(reported, map[string]any{"class": "wrap_sequential", "site": "ringz.(*SyncRing)", "detail": f, "replay": path})
+			if exit == 0 {
+				exit = 1
+			}
+		}
+		if e, _ := wr["error"].(string); e != "" {
+			fmt.Fprintf(os.Stderr, "verifctl: real wrap run: %s\n", e)
+			exit = 2
+		}
+	}
 	wall := time.Since(start).Seconds()
 	if writeEvidence {
 		writeEvidenceFile(p, tier, seed, agg, reported, wall, buildS, float64(budget), nW, detN, exit)
 	}
 	fmt.Printf("property=%s tier=%s runs=%d distinct_nontrivial=%d violations=%d wall=%.1fs exit=%d\n", p.ID, tier, agg.runs, agg.distinct, len(reported), wall, exit)
 	return exit
+}
+
+// realWrap builds the C01 worker without -race and lets it perform 2^32-8 real push/pop
+// pairs (about two minutes on one core), see harness/cmd/c01 wrapCheck.
+func realWrap(p *propCfg, dir string) map[string]any {
+	har := filepath.Join(scratch, p.ID, "harness")
+	bin := filepath.Join(scratch, p.ID, "worker_norace")
+	if out, err := run(har, goEnv(), "go", "build", "-o", bin, "./cmd/c01"); err != nil {
+		return map[string]any{"error": "build: " + err.Error() + " " + tail(out, 500)}
+	}
+	os.MkdirAll(dir, 0o755)
+	res := filepath.Join(dir, "wrap.json")
+	cmd := exec.Command(bin)
+	cmd.Env = append(os.Environ(), "VERIF_C01_WRAP="+res)
+	done := make(chan error, 1)
+	if err := cmd.Start(); err != nil {
+		return map[string]any{"error": err.Error()}
+	}
+	go func() { done <- cmd.Wait() }()
+	select {
+	case err := <-done:
+		if err != nil {
+			return map[string]any{"error": "wrap worker: " + err.Error()}
+		}
+	case <-time.After(30 * time.Minute):
+		cmd.Process.Kill()
+		return map[string]any{"error": "wrap worker: watchdog (30 min)"}
+	}
+	b, err := os.ReadFile(res)
+	if err != nil {
+		return map[string]any{"error": err.Error()}
+	}
+	var m map[string]any
+	if err := json.Unmarshal(b, &m); err != nil {
+		return map[string]any{"error": err.Error()}
+	}
+	return m
 }
 
 func sanitize(s string) string {
@@ -677,6 +736,7 @@ type aggT struct {
 	violCount   map[string]int
 	samples     []caseDoc
 	notes       []string
+	extra       map[string]any
 }
 
 func aggregate(outs []*workerOut, dir string) *aggT {
@@ -768,6 +828,9 @@ func writeEvidenceFile(p *propCfg, tier string, seed uint64, a *aggT, reported [
 		"determinism_selfcheck": map[string]any{"runs_compared": detN, "processes": 2, "gomaxprocs": []int{1, 4}, "identical": true},
 		"findings":              reported,
 		"notes":                 a.notes,
+	}
+	for k, v := range a.extra {
+		cov[k] = v
 	}
 	nViol := 0
 	for _, r := range reported {
